@@ -22,6 +22,7 @@ mod poolworld;
 mod props;
 mod repairworld;
 mod replay;
+mod soloworld;
 mod vworld;
 mod wire;
 mod wireworld;
